@@ -83,6 +83,31 @@ def events(stmt):
     return out
 
 
+def infeasible_after_incref(path, raise_node, first_write):
+    """`M.incref(x)` succeeded, so `x` is a node of `M`: a rejection under
+    `x not in M` afterwards cannot happen (incref of an unknown node raises
+    KeyError itself, before it writes)."""
+    w = first_write[0]
+    calls = [c for c in au.calls_in(w) if au.call_name(c) == 'incref']
+    if not calls or not calls[0].args or not isinstance(
+            calls[0].args[0], ast.Name):
+        return False
+    x = calls[0].args[0].id
+    recv = au.call_recv(calls[0]) or []
+    for it in path:
+        if it[0] == 'test' and it[2] and any(
+                raise_node is y for st in getattr(it[3], 'body', [])
+                for y in ast.walk(st)):
+            t = it[1]
+            if isinstance(t, ast.Compare) and len(t.ops) == 1 and \
+                    isinstance(t.ops[0], ast.NotIn) and au.is_name(
+                        t.left, x):
+                m = au.chain(t.comparators[0]) or []
+                if m and recv and (m == recv or m[-1] == recv[-1]):
+                    return True
+    return False
+
+
 def r_raw(P, R):
     mods = {'dd.bdd', 'dd.autoref', 'dd._copy'}
     n_mut = 0
@@ -157,6 +182,8 @@ def r_raw(P, R):
                             bad = bad or (path, node, text, first_write)
                 if it[0] == 'exit' and it[2] == 'raise' and \
                         first_write is not None:
+                    if infeasible_after_incref(path, it[1], first_write):
+                        continue
                     bad = bad or (path, it[1],
                                   'raise ' + str(au.raised_name(it[1])),
                                   first_write)
@@ -201,7 +228,9 @@ GUARDS = [
     ('dd.bdd.rename', 'u', ['bdd'], '_copy_bdd'),
     ('dd.autoref.BDD.__contains__', 'u', ['self', 'bdd'], None),
     ('dd.autoref.BDD._wrap', 'u', ['self._bdd'], 'Function'),
-    ('dd.autoref.Function.__init__', 'node', ['bdd'], 'incref'),
+    # (no ordering against incref: incref of an unknown node raises
+    # KeyError itself before it writes, see infeasible_after_incref)
+    ('dd.autoref.Function.__init__', 'node', ['bdd'], None),
     ('dd.bdd.BDD.swap', 'x', ['len(self.vars)'], 'find_or_add'),
     ('dd.bdd.BDD.swap', 'y', ['len(self.vars)'], 'find_or_add'),
     ('dd.bdd.BDD.swap', 'x', ['y', '1'], 'find_or_add'),
